@@ -716,14 +716,43 @@ class ExprGen:
         _ = rng
 
     def sequence(self, flavour: str) -> List[Dict[str, Any]]:
-        self.set_mode(flavour)
+        self.set_mode("wild" if flavour == "illformed" else flavour)
         n_hist = self.rng.choice([0, 1, 1, 2, 3])
         ops = []
         for i in range(n_hist + 1):
             o = self.op(f"Op{i}")
             if o is not None:
+                if flavour == "illformed" and self.rng.random() < 0.6:
+                    self.break_op(o)
                 ops.append(o)
         return ops
+
+    def break_op(self, op: Dict[str, Any]) -> None:
+        """make the expression ill-formed for the generated classes (compared with the model's AttributeError /
+        TypeError branches; never judged by the oracle)"""
+        rng = self.rng
+        nodes = [se for f in op["fields"] for se, _ in walk_se(f)]
+        se = rng.choice(nodes)
+        cls_of_result = None
+        acc = next((a for a in self.table[se["cls"]]["accessors"] if a["attr"] == se["attr"]), None)
+        if acc:
+            cls_of_result = self.table.get(acc["cls"])
+        kind = rng.choice(["fields", "on", "kw", "required"])
+        leaf = {"cls": "Query", "attr": "no_such_accessor", "field": "x", "args": [], "calls": []}
+        some_leaf = next((n for n in nodes if not n["calls"]), leaf)
+        child = copy.deepcopy(some_leaf)
+        if kind == "fields" and cls_of_result is not None and not cls_of_result["fields"]:
+            se["calls"].append(["fields", [child]])
+        elif kind == "on" and cls_of_result is not None and not cls_of_result["on"]:
+            se["calls"].append(["on", "Nothing", [child]])
+        elif kind == "kw" and acc and acc["kind"] == "method":
+            se["args"].append(["bogusArgument", 1])
+        elif kind == "required" and acc and any(a["required"] for a in acc["args"]):
+            req = next(a["key"] for a in acc["args"] if a["required"])
+            se["args"] = [x for x in se["args"] if x[0] != req]
+        else:
+            se["calls"].append(["fields", [leaf]])  # a class without that accessor
+        op["illFormed"] = True
 
 
 def se_to_expr(se: Dict[str, Any]) -> Dict[str, Any]:
@@ -769,7 +798,7 @@ def expected_rsel(se: Dict[str, Any]) -> Dict[str, Any]:
             subs += [expected_rsel(x) for x in c[1]]
         else:
             frags[c[1]] = [expected_rsel(x) for x in c[2]]
-    args = [[n, T_str(se["argTypes"][n]), v] for n, v in se["args"] if v is not None]
+    args = [[n, T_str(se["argTypes"].get(n, {"n": "?"})), v] for n, v in se["args"] if v is not None]
     sels = subs + [{"on": t, "sels": xs} for t, xs in frags.items()]
     return {"f": se["field"], "a": alias or None, "args": args, "set": bool(sels), "sels": sels}
 
@@ -821,7 +850,7 @@ def format_names(names: List[str], idx: int) -> List[str]:
 
 def classify(history: List[Dict[str, Any]], op: Dict[str, Any]) -> Dict[str, bool]:
     nodes = [nd for f in op["fields"] for nd in walk_se(f)]
-    list_arg = any(v is not None and T_has_list(se["argTypes"][n]) for se, _ in nodes for n, v in se["args"])
+    list_arg = any(v is not None and T_has_list(se["argTypes"].get(n, {"n": "?"})) for se, _ in nodes for n, v in se["args"])
     deep = any(d >= 3 and any(v is not None for _, v in se["args"]) for se, d in nodes)
     py_name = any(se["kind"] == "method" and se["cls"] not in ("Query", "Mutation") and se["py"] != se["field"] for se, _ in nodes)
     hist = [o for h in history for o in shared_occurrences(h)]
@@ -1082,7 +1111,8 @@ def schema_case(root: Path, seed: str, budget: Dict[str, int], fixed: Optional[D
         seqs = copy.deepcopy(fixed["seqs"])
     else:
         gen = ExprGen(rng, schema, table)
-        flavours = ["clean"] * budget["clean"] + ["wild"] * budget["wild"] + ["list", "deep", "camel", "shared"] * budget["each"]
+        flavours = (["clean"] * budget["clean"] + ["wild"] * budget["wild"] + ["list", "deep", "camel", "shared"] * budget["each"]
+                    + ["illformed"] * budget.get("ill", 1))
         seqs = []
         for fl in flavours:
             ops = gen.sequence(fl)
@@ -1249,16 +1279,25 @@ def compare_rsel(doc: Dict[str, Any], want: List[Dict[str, Any]]) -> List[str]:
             if got["set"] != exp["set"]:
                 sigs.append("selection-differs")
                 return
-        if len(got["sels"]) != len(exp["sels"]):
+        pairs(got["sels"], exp["sels"])
+
+    def key(x: Dict[str, Any]) -> Tuple[str, str]:
+        return ("on", x["on"]) if "on" in x else ("f", x["a"] or x["f"])
+
+    def pairs(gs: List[Dict[str, Any]], es: List[Dict[str, Any]]) -> None:
+        """siblings are matched by response name / type condition when that is unambiguous (the property does not
+        fix the order of selections), positionally otherwise"""
+        if len(gs) != len(es):
             sigs.append("selection-differs")
             return
-        for g, e in zip(got["sels"], exp["sels"]):
+        gk, ek = [key(x) for x in gs], [key(x) for x in es]
+        if gk != ek and sorted(gk) == sorted(ek) and len(set(gk)) == len(gk):
+            gs = sorted(gs, key=key)
+            es = sorted(es, key=key)
+        for g, e in zip(gs, es):
             go(g, e)
 
-    if len(doc["sels"]) != len(want):
-        return ["selection-differs"]
-    for g, e in zip(doc["sels"], want):
-        go(g, e)
+    pairs(doc["sels"], want)
     return sigs
 
 
@@ -1396,12 +1435,12 @@ def process_case(ctx: Ctx, res: Result, case: Dict[str, Any], model: Optional[Di
                 fresh = run["fresh"][k] if run["fresh"] else None
                 if fresh is not None and str(fresh.get("error", "")).startswith("harness:"):
                     raise common.Infra(f"C14 fresh-process run failed: {fresh['error']}")
-                trig = classify(ops[:k], o)
-                syn_clash = trig["nameClash"]
-                trig["nameClash"] = doc_clash(a.get("ir"))
-                if syn_clash != trig["nameClash"] and not trig["sharedMut"]:
+                trig = classify(ops[:k], o)  # decided on the input alone; used to attribute failures to findings
+                lean_view = dict(trig)       # the Lean side states F5 on the document the operation produces
+                lean_view["nameClash"] = doc_clash(a.get("ir"))
+                if lean_view["nameClash"] != trig["nameClash"] and not trig["sharedMut"] and not o.get("illFormed"):
                     res.mismatches.append(Mismatch("nameClash: names simulated on the expression vs names in the sent document",
-                                                   {**base_input, "client": kind, "sequence": si, "op": k}, trig["nameClash"], syn_clash))
+                                                   {**base_input, "client": kind, "sequence": si, "op": k}, lean_view["nameClash"], trig["nameClash"]))
                 inp = {**base_input, "client": kind, "sequence": si, "op": k, "flavour": sq["flavour"],
                        "replay": {"schema": strip_py(case["schema"]), "seqs": [{"flavour": sq["flavour"], "ops": ops[: k + 1]}]}}
                 res.seen([case["seed"], si, k, kind], True)
@@ -1411,6 +1450,11 @@ def process_case(ctx: Ctx, res: Result, case: Dict[str, Any], model: Optional[Di
                             res.count("trigger:" + t)
                     if not any(trig.values()):
                         res.count("ops-outside-every-trigger")
+                        proved = not any(m for h in ops[: k + 1] for _, _, m in shared_occurrences(h))
+                        res.count("region:theorem (Supported_14 and Proved_14)" if proved
+                                  else "region:supported-but-unproved (a class-level object is mutated, never re-used)")
+                    else:
+                        res.count("region:finding")
                     res.count("op-depth:%d" % max(d for f in o["fields"] for _, d in walk_se(f)))
                     res.count("op-top-level-fields:%d" % len(o["fields"]))
                     if "ir" in a:
@@ -1418,7 +1462,7 @@ def process_case(ctx: Ctx, res: Result, case: Dict[str, Any], model: Optional[Di
                     elif "error" in a:
                         res.count("doc:raises:" + a["error"])
                 # correspondence
-                judged = judge_op(a, fresh, wants[k], o["name"])
+                judged = [] if o.get("illFormed") else judge_op(a, fresh, wants[k], o["name"])
                 if m_hist is not None:
                     mo = m_hist[k]
                     # DESIGN.md 1.4: a disagreement INSIDE a finding region where the implementation now satisfies the
@@ -1430,14 +1474,17 @@ def process_case(ctx: Ctx, res: Result, case: Dict[str, Any], model: Optional[Di
                     if fresh is not None and not common.same_json(impl_obs(fresh), model_doc(m_fresh[k])):
                         res.mismatches.append(Mismatch("document-fresh", drop_replay(inp), impl_obs(fresh), model_doc(m_fresh[k])))
                     if kind == "sync":
-                        if not common.same_json(trig, mo["trig"]):
-                            res.mismatches.append(Mismatch("triggers", drop_replay(inp), trig, mo["trig"]))
+                        if not common.same_json(lean_view, mo["trig"]):
+                            res.mismatches.append(Mismatch("triggers", drop_replay(inp), lean_view, mo["trig"]))
                         if "ir" in a and "validSubset" in a and not mo.get("error") and bool(a["validSubset"]) != bool(mo["valid"]):
                             res.mismatches.append(Mismatch("spec-validator-vs-graphql-core", drop_replay(inp),
                                                            {"valid": a["validSubset"], "messages": a["validation"][:4]}, {"valid": mo["valid"]}))
                         if len(res.samples) < 4 and "ir" in a and a["ir"]["varDefs"] and not any(trig.values()):
                             res.sample({"query": a["query"], "variables": a["ir"]["values"], "model": model_doc(mo)})
                 # oracle
+                if o.get("illFormed"):
+                    res.count("op:deliberately-ill-formed (model compared, oracle not applicable)")
+                    continue
                 for sig, detail in judged:
                     t = attribute(sig, trig)
                     res.failures.append(Failure(sig, t, inp, f"{kind} client, {detail}; triggers={[x for x, v in trig.items() if v]}; query={a.get('query', '')[:300]!r}"))
@@ -1563,6 +1610,9 @@ def run(ctx: Ctx, st: Optional[LeanStatus]) -> Result:
         "print_ast / parse of graphql-core: the document IR is read back from the query text that was sent",
         "OverlappingFieldsCanBeMerged is judged only by graphql-core's validate (the harness's expressions give repeated fields distinct aliases)",
     ]
+    res.extra["unproved_region"] = ("C14_partial is proved under Proved_14 (no alias/on applied to a class-level object anywhere in the history or "
+                                    "the operation); operations outside every finding trigger that do mutate a class-level object which is never "
+                                    "re-used are covered by correspondence and oracle only (counted as region:supported-but-unproved)")
     res.assumptions += [
         "builder expressions are trees: an object returned by a generated classmethod is used once (class-level objects may be used anywhere, any number of times)",
         "expression depth stays far below CPython's recursion limit",
